@@ -520,6 +520,26 @@ def check(run: Run) -> None:
     _i3_idgen(run)
 
     # ---- I4
+    # identity of a wrapper: the wrapped argument, not its display string. SymPy's Symbol.__new__ caches by (class, name, assumptions); a wrapper named
+    # after str(argument) and built through that cache is ONE object for all arguments that print alike (p: pressure, momentum, dipole moment ...)
+    sm = src.mods.get(PKG + ".core.operations.symbolic")
+    if sm is None:
+        raise AnalysisError("C03: core/operations/symbolic.py not found")
+    scls = next((c for c in sm.tree.body if isinstance(c, ast.ClassDef) and c.name == "Symbolic"), None)
+    snew = next((f_ for f_ in (scls.body if scls else []) if isinstance(f_, ast.FunctionDef) and f_.name == "__new__"), None)
+    if snew is None:
+        raise AnalysisError("C03: Symbolic.__new__ not found")
+    run.ob("I4", "Symbolic:identity-is-the-argument")
+    uncached = any(isinstance(x, ast.Call) and (dotted(x.func) or "").endswith("__xnew__") for x in ast.walk(snew))
+    cached = any(isinstance(x, ast.Call) and ((dotted(x.func) or "") in ("super().__new__", "SymSymbol.__new__", "Symbol.__new__")) for x in ast.walk(snew))
+    hc = next((f_ for f_ in scls.body if isinstance(f_, ast.FunctionDef) and f_.name == "_hashable_content"), None)
+    by_argument = hc is not None and any(isinstance(x, ast.Attribute) and x.attr == "factor" for x in ast.walk(hc))
+    if cached or not (uncached and by_argument):
+        run.violate("I4", "symbolic-wrapper:identity", sm, snew,
+                    "Symbolic.__new__ creates the wrapper through SymPy's name-keyed symbol cache under the name Class(str(argument)) "
+                    + ("" if by_argument else "and the argument is not part of its hashable content") +
+                    ": wrappers of different arguments that print alike (45 display names of symbols.* are shared by symbols of different dimension) are one object, "
+                    "and constructing one overwrites the factor and dimension of the other - the meaning of a law depends on what was constructed before")
     wrappers: dict[tuple, list] = {}
     for name, m in src.mods.items():
         if name.split(".")[0] != PKG:
@@ -549,13 +569,13 @@ def check(run: Run) -> None:
     for (cls, disp), items in sorted(wrappers.items()):
         run.ob("I4", f"{cls}({disp})")
         idents = {i for i, _, _, _ in items}
-        if len(idents) > 1:
+        if len(idents) > 1 and (cached or not (uncached and by_argument)):
             m, x = items[1][2], items[1][3]
             run.violate("I4", f"wrapper-alias:{cls}({disp})", m, x,
                         f"{cls}({disp}) is constructed over {len(idents)} different symbols displayed `{disp}`: SymPy's symbol cache returns one object for "
                         f"both, and the later construction overwrites the earlier one's factor/dimension (import-order dependent meaning)",
                         sites=[f"{mm.rel}:{xx.lineno}" for _, _, mm, xx in items])
-        elif len({f for _, f, _, _ in items}) > 1:
+        elif len({f for _, f, _, _ in items}) > 1 and (cached or not (uncached and by_argument)):
             m, x = items[1][2], items[1][3]
             run.violate("I4", f"wrapper-flags:{cls}({disp})", m, x,
                         f"{cls}({disp}) is constructed with different wrap flags in different modules: the cached object keeps the flags of whichever "
